@@ -12,9 +12,11 @@ Pr1 == [price |-> 1, pt |-> <<>>, pv |-> <<>>]
 Pr3 == [price |-> 3, pt |-> <<>>, pv |-> <<>>]
 C_InitBinds == {}
 C_InitBal == [a \in C_Accts |-> IF a = "o1" THEN 6 ELSE IF a = "o2" THEN 4 ELSE 0]
-C_Params == [maxTimeout |-> 2, multiple |-> 2, minDeposit |-> 4, tax |-> 1, slash |-> 5, refundDelay |-> 2]
+C_Params == [maxTimeout |-> 2, multiple |-> 2, minDeposit |-> 4, tax |-> 1, slash |-> 5, refundDelay |-> 2, lax |-> FALSE]
 C_Prs == {Pr1, Pr3}
 C_ProvSeqs == {<<"p1">>}
 C_ModSvc == <<>>
-C_Msgs == {"Define", "Bind", "UpdateBinding", "Disable", "Enable", "RefundDeposit"}
+C_Msgs == {"Define", "Bind", "UpdateBinding", "Disable", "Enable", "RefundDeposit", "SetParams"}
+\* governance: a higher minimum deposit, a lower multiple with a shorter refund lock
+C_ParamAlts == {C_Params, [C_Params EXCEPT !.minDeposit = 6], [C_Params EXCEPT !.multiple = 1, !.refundDelay = 1]}
 =============================================================================
